@@ -86,6 +86,23 @@ def show_stack(stack: tuple) -> str:
     return "[" + " ".join(repr(t) for t in stack) + "]"
 
 
+PUBLIC_STEPS = {"infix_to_postfix", "format_infix", "parse", "copy", "create", "load"}
+
+
+def _helpers(fn) -> dict[str, Any]:
+    """Methods of the parser's own class (and of the classes nested in it) that the interpreter may step into when they are called on
+    cls / self / the class: everything except the public pipeline steps, which stay opaque."""
+    out: dict[str, Any] = {}
+    c = fn.cls
+    if c is None:
+        return out
+    for k in c.mro:
+        for name, m in k.methods.items():
+            if name not in PUBLIC_STEPS and not name.startswith("__") and name not in out:
+                out[name] = m
+    return out
+
+
 def infix_to_postfix(check: Check, rule: str = "PD") -> None:
     p = check.program
     fn = p.func("Function.infix_to_postfix")
@@ -93,7 +110,7 @@ def infix_to_postfix(check: Check, rule: str = "PD") -> None:
     depth = 6 if check.tier == "thorough" else 4
     toks = token_classes(check)
     node = fn.analysis_node
-    ex = AbsExec(fn.qualname)
+    ex = AbsExec(fn.qualname, helpers=_helpers(fn))
     params = [a.arg for a in node.args.args]
     env0: dict[str, Any] = {params[0]: Opaque("cls")}
     for nm in params[1:]:
@@ -284,7 +301,7 @@ def parse_postfix(check: Check, rule: str = "PD2") -> None:
         raise Unknown(f"{fn.qualname}: .copy() on {type(recv).__name__}")
 
     ex = AbsExec(fn.qualname, {"method:Node": make_node, "to_float": to_float, "method:copy": copy_elem,
-                               "method:to_float": lambda ex_, e, recv, args, kw: to_float(ex_, e, args, kw)})
+                               "method:to_float": lambda ex_, e, recv, args, kw: to_float(ex_, e, args, kw)}, helpers=_helpers(fn))
     params = [a.arg for a in node.args.args]
     env0: dict[str, Any] = {params[0]: Opaque("cls")}
     for nm in params[1:]:
